@@ -911,6 +911,9 @@ func (m *Machine) copyInto(dst Slice, at *T, src Value) {
 		n := int(m.conc(a.Len, 4096))
 		do := int(m.conc(Bin("bvadd", dst.Off, at), 4096))
 		so := int(m.conc(a.Off, 4096))
+		if do+n > len(dst.AL.sub) || so+n > len(a.AL.sub) {
+			panic(unsupported{"element beyond the materialised part of a large array"})
+		}
 		for k := 0; k < n; k++ {
 			m.store(dst.AL.sub[do+k], m.load(a.AL.sub[so+k]))
 		}
